@@ -89,8 +89,8 @@ func genReg(r *Rng) Sx {
 			ops = append(ops, L(3, A(root), A(full), A(r.Pick([]string{"GET", "POST"}))))
 		default:
 			pat := r.Pick(regPlain)
-			if usedPlain[pat] {
-				continue
+			if usedPlain[pat] && r.Pct(70) {
+				continue // (the other 30%: the pattern is taken, the mux refuses, the caller recovers and goes on)
 			}
 			usedPlain[pat] = true
 			ops = append(ops, L(4, A(pat), 100+len(usedPlain)))
@@ -172,6 +172,15 @@ func runReg(raw Sx) (Sx, Sx) {
 		}
 		return s
 	}
+	taken := func(pat string) bool {
+		for _, p := range plains {
+			if p.pat == pat {
+				return true
+			}
+		}
+		return false
+	}
+	ops = append(Ls{}, ops...)
 	for i, op := range ops {
 		ok := func() (ok bool) {
 			defer func() {
@@ -234,6 +243,13 @@ func runReg(raw Sx) (Sx, Sx) {
 			}
 			return true
 		}()
+		if !ok && sxInt(sxNth(op, 0)) >= 4 && taken(sxStr(sxNth(op, 1))) {
+			// Handle on a pattern that is taken is refused (the mux panics); the caller recovers and carries on with
+			// the container: the refusal must have changed nothing. Marked (5 pattern id) for the model, which checks
+			// that the operation had to be refused and leaves its state as it is
+			ops[i] = L(5, sxNth(op, 1), sxNth(op, 2))
+			continue
+		}
 		if !ok {
 			failed = i
 			break
@@ -329,7 +345,7 @@ func runReg(raw Sx) (Sx, Sx) {
 			refusedKeeps = 0
 		}
 	}()
-	return L(o.Sx(), router, Ls(ops), Ls(probes)), L(failed, ha, fa, freshFailed, refusedKeeps)
+	return L(o.Sx(), router, Ls(ops), Ls(probes)), L(failed, ha, fa, freshFailed, refusedKeeps, 0)
 }
 
 func routeFromSx(r Sx) RouteSpec {
